@@ -27,6 +27,7 @@ structure CopyGen (s : State) (d : NewStreamData) (w : Nat) (pre q : List Nat) (
   done : y.2.2 = SUCCESS → y.1.new_stream_pending = none ∧ y.1.last_bytes_len = 1
   more : y.2.2 = NEEDS_MORE_OUTPUT → y.1.new_stream_pending ≠ none ∧ y.2.1.length = cap
   ws : y.1.window_size = s.window_size
+  len_le : y.2.1.length ≤ cap
 
 theorem shiftCopyOut_cons_gen (s : State) (d : NewStreamData) (w : Nat) (pre q : List Nat) (cap : Nat)
     (y : State × List Nat × Nat) (hw : d.num_bytes_written = some w) (hwr : w ≤ d.num_bytes_read)
@@ -49,7 +50,7 @@ theorem shiftCopyOut_cons_gen (s : State) (d : NewStreamData) (w : Nat) (pre q :
     subst h
     have hk : min (cap - (pre ++ q).length) (d.num_bytes_read - w) = cap - (pre ++ q).length := by omega
     refine ⟨⟨q ++ (d.bytes_so_far.toList.drop w).take (cap - (pre ++ q).length), ?_, ?_⟩,
-      Or.inr ⟨_, _, rfl, rfl, ?_⟩, Or.inr rfl, fun e => by simp at e, fun _ => ⟨by simp, ?_⟩, ?_⟩
+      Or.inr ⟨_, _, rfl, rfl, ?_⟩, Or.inr rfl, fun e => by simp at e, fun _ => ⟨by simp, ?_⟩, ?_, ?_⟩
     · dsimp only; rw [hk, List.append_assoc]
     · unfold held owedOf
       dsimp only
@@ -63,6 +64,11 @@ theorem shiftCopyOut_cons_gen (s : State) (d : NewStreamData) (w : Nat) (pre q :
       simp only [List.length_append, List.length_take, List.length_drop, B5.toList_length]
       omega
     · dsimp only; split <;> rfl
+    · dsimp only
+      rw [hk]
+      have hpq : (pre ++ q).length = pre.length + q.length := List.length_append
+      simp only [List.length_append, List.length_take, List.length_drop, B5.toList_length]
+      omega
   · rw [if_neg hc] at h
     have hk : min (cap - (pre ++ q).length) (d.num_bytes_read - w) = d.num_bytes_read - w := by omega
     simp only [hk] at h
@@ -86,9 +92,14 @@ theorem shiftCopyOut_cons_gen (s : State) (d : NewStreamData) (w : Nat) (pre q :
       omega)] at h
     simp only [Outcome.ok.injEq] at h
     subst h
-    refine ⟨⟨ys, by simp, ?_⟩, Or.inl rfl, Or.inl rfl, fun _ => ⟨rfl, rfl⟩, fun e => by simp at e, ?_⟩
+    refine ⟨⟨ys, by simp, ?_⟩, Or.inl rfl, Or.inl rfl, fun _ => ⟨rfl, rfl⟩, fun e => by simp at e, ?_, ?_⟩
     · rw [hys]; unfold held; simp
     · dsimp only; split <;> rfl
+    · dsimp only
+      have h1 := congrArg List.length hys
+      have hpq : (pre ++ q).length = pre.length + q.length := List.length_append
+      simp only [List.length_append, List.length_cons, List.length_nil, hH, List.length_dropLast] at h1 ⊢
+      omega
 
 /-- the realignment does not look at the output buffer beyond "is there room for one byte" -/
 theorem shiftRealign_rel (s : State) (nsp : NewStreamData) (wo v : Nat) (out : List Nat) (cap : Nat)
@@ -213,5 +224,515 @@ theorem shiftAndCheck_factor (s : State) (nsp : NewStreamData) (out : List Nat) 
           cases shiftRealign s nsp wo v [] 1 with
           | panic t => simp
           | ok r => simp [shiftFinish]
+
+/-- `stream` with a member pending, given the outcome of the strip -/
+theorem stream_of_flush (s s1 : State) (nsp0 : NewStreamData) (inp : List Nat) (cap : Nat) (o1 : List Nat)
+    (hp : s.new_stream_pending = some nsp0)
+    (hf : flushPreviousStream s [] cap = ok (s1, o1, SUCCESS)) :
+    stream s inp cap =
+      ((if nsp0.num_bytes_written.isNone ∧ nsp0.num_bytes_read < NUM_STREAM_HEADER_BYTES then
+          (headerLoop nsp0 inp 0).bind fun x => ok (x.1, x.2, { s1 with new_stream_pending := some x.1 })
+        else ok (nsp0, 0, s1)).bind fun x =>
+      if x.1.num_bytes_written.isNone ∧ ¬ x.1.sufficient then ok ⟨x.2.2, NEEDS_MORE_INPUT, x.2.1, o1⟩ else
+      if cap = o1.length then ok ⟨x.2.2, NEEDS_MORE_OUTPUT, x.2.1, o1⟩ else
+      (shiftAndCheckNewStreamHeader x.2.2 x.1 o1 cap).bind fun y =>
+      if y.2.2 ≠ SUCCESS then ok ⟨y.1, y.2.2, x.2.1, y.2.1⟩ else
+      if y.2.1.length = cap then ok ⟨y.1, NEEDS_MORE_OUTPUT, x.2.1, y.2.1⟩ else
+      streamTail y.1 inp x.2.1 y.2.1 cap) := by
+  unfold stream
+  rw [hp]
+  dsimp only
+  rw [hf]
+  simp only [bind_ok, SUCCESS, ne_eq, not_true_eq_false, if_false]
+
+/-- what `shiftHead` hands to the copy-out -/
+theorem shiftHead_inr (s : State) (nsp : NewStreamData) (s' : State) (n' : NewStreamData) (q : List Nat)
+    (hI : Inv s) (hr5 : nsp.num_bytes_read ≤ 5) (hsuf : nsp.sufficient = true)
+    (h : shiftHead s nsp = ok (.inr (s', n', q))) :
+    (∃ w, n'.num_bytes_written = some w ∧ w ≤ n'.num_bytes_read) ∧ n'.num_bytes_read ≤ 5 ∧ q.length = 1 ∧
+    s'.last_byte_sanitized = s.last_byte_sanitized ∧ s'.window_size ≠ 0 ∧
+    s'.last_byte_bit_offset = s.last_byte_bit_offset := by
+  have hrd := sufficient_read nsp hsuf
+  unfold shiftHead at h
+  rw [hdr5, if_neg (by omega)] at h
+  have hlen : (List.take nsp.num_bytes_read nsp.bytes_so_far.toList).length = nsp.num_bytes_read := by
+    simp only [List.length_take, B5.toList_length]; omega
+  obtain ⟨pw, hpweq, hpw2⟩ := sat_iff.mp (parseWindowSize_sat (List.take nsp.num_bytes_read nsp.bytes_so_far.toList)
+    (by omega))
+  rw [hpweq] at h
+  simp only [bind_ok] at h
+  cases pw with
+  | none => simp at h
+  | some wo =>
+    obtain ⟨wsz, wo⟩ := wo
+    obtain ⟨hw10, hw30, hwo⟩ := hpw2 wsz wo rfl
+    dsimp only at h
+    by_cases c1 : s.window_size = 0
+    · rw [if_pos c1] at h
+      by_cases c2 : s.last_byte_bit_offset ≠ 0
+      · rw [if_pos c2] at h; simp at h
+      rw [if_neg c2] at h
+      simp only [Outcome.ok.injEq, Sum.inr.injEq, Prod.mk.injEq] at h
+      obtain ⟨rfl, rfl, rfl⟩ := h
+      refine ⟨⟨1, rfl, by dsimp only; omega⟩, hr5, rfl, rfl, ?_, rfl⟩
+      dsimp only
+      have := @Nat.left_le_or wsz (if wo = 14 then LARGE_WINDOW_FLAG else 0)
+      omega
+    rw [if_neg c1] at h
+    by_cases c3 : wsz > (s.window_size &&& NOT_LARGE_WINDOW_FLAG)
+    · rw [if_pos c3] at h; simp at h
+    rw [if_neg c3] at h
+    by_cases c4 : (decide (wo = 14)) ≠ (decide ((s.window_size &&& LARGE_WINDOW_FLAG) ≠ 0))
+    · rw [if_pos c4] at h; simp at h
+    rw [if_neg c4] at h
+    obtain ⟨vo, hvoeq, hvo⟩ := sat_iff.mp (detectVarlenOffset_sat (List.take nsp.num_bytes_read nsp.bytes_so_far.toList)
+      (by omega) (by omega))
+    rw [hvoeq] at h
+    simp only [bind_ok] at h
+    cases vo with
+    | none => simp at h
+    | some v =>
+      dsimp only at h
+      by_cases c5 : (v + 7) / 8 > nsp.num_bytes_read
+      · rw [if_pos c5] at h; simp at h
+      rw [if_neg c5] at h
+      obtain ⟨w', o', hpe, _, hov⟩ := hvo v rfl
+      rw [hpweq] at hpe
+      simp only [Outcome.ok.injEq, Option.some.injEq, Prod.mk.injEq] at hpe
+      obtain ⟨_, rfl⟩ := hpe
+      obtain ⟨r, hreq, e1, e2, e3, e4⟩ := sat_iff.mp (shiftRealign_sat s nsp wo v [] 1 hI.off_lt hr5 (by omega) hov
+        (by omega) (by simp))
+      rw [hreq] at h
+      simp only [bind_ok, Outcome.ok.injEq, Sum.inr.injEq] at h
+      subst h
+      dsimp only at e1 e2 e3 e4
+      refine ⟨⟨0, e2, Nat.zero_le _⟩, e3, by simpa using e4, by rw [e1], by rw [e1]; exact c1, by rw [e1]⟩
+
+/-- capacity-free description of what a member in its header phase will do once all of `x`
+has been offered: strip result `(s1, o1)`, complete look-ahead `nspF` after `k` bytes, accepted
+header with first bytes `q` and copy-out data `n'` (`w` bytes already counted as written) -/
+structure HdrPlan (s : State) (x : List Nat) (nsp0 : NewStreamData) (s1 : State) (o1 : List Nat)
+    (nspF : NewStreamData) (k : Nat) (s' : State) (n' : NewStreamData) (q : List Nat) (w : Nat) : Prop where
+  pending : s.new_stream_pending = some nsp0
+  fresh : nsp0.num_bytes_written = none
+  strip : flushPreviousStream s [] 1 = ok (s1, o1, SUCCESS)
+  look : headerLoop nsp0 x 0 = ok (nspF, k)
+  suff : nspF.sufficient = true
+  head : shiftHead { s1 with new_stream_pending := some nspF } nspF = ok (.inr (s', n', q))
+  written : n'.num_bytes_written = some w
+
+/-- everything the member owes the output, given its plan -/
+def planOwed (o1 q : List Nat) (n' : NewStreamData) (w : Nat) (x : List Nat) (k : Nat) : List Nat :=
+  o1 ++ q ++ owedOf n' w ++ x.drop k
+
+/-- what one call does to a member in its header phase -/
+inductive CallOutcome (s : State) (x : List Nat) (s1 : State) (o1 : List Nat) (nspF : NewStreamData) (k : Nat)
+    (s' : State) (n' : NewStreamData) (q : List Nat) (w : Nat) (r : Ret) : Prop where
+  /-- no room for the strip: nothing happened -/
+  | stalled (h : r = ⟨s, NEEDS_MORE_OUTPUT, 0, []⟩)
+  /-- strip and look-ahead done, no room for the header: still in the header phase -/
+  | waiting (hst : r.st = { s1 with new_stream_pending := some nspF }) (hcode : r.code = NEEDS_MORE_OUTPUT)
+      (hcons : r.consumed = k) (hprod : r.produced = o1)
+  /-- the header was accepted in this call -/
+  | accepted (hset : Settled r.st)
+      (hcons : r.produced ++ held r.st = o1 ++ q ++ owedOf n' w ++ (x.drop k).take (r.consumed - k))
+      (hk : k ≤ r.consumed) (hle : r.consumed ≤ x.length)
+      (hcode : r.code = NEEDS_MORE_INPUT ∨ r.code = NEEDS_MORE_OUTPUT)
+      (hlen : r.st.new_stream_pending = none → r.st.last_bytes_len = min 2 (1 + (r.consumed - k)))
+      (hcopy : r.st.new_stream_pending ≠ none → r.consumed = k ∧ r.code = NEEDS_MORE_OUTPUT)
+      (hws : r.st.window_size = s'.window_size)
+
+theorem flush_nocap_code (s s1 : State) (o1 : List Nat) (code : Nat)
+    (h1 : flushPreviousStream s [] 1 = ok (s1, o1, SUCCESS))
+    (hf : flushPreviousStream s [] 0 = ok (s, [], code)) (hcode : ¬ code = SUCCESS) :
+    code = NEEDS_MORE_OUTPUT := by
+  cases hs : s.last_byte_sanitized with
+  | true => rw [flush_sanitized s [] 0 hs] at hf; simp at hf; exact absurd hf.symm hcode
+  | false =>
+    by_cases h0 : s.last_bytes_len = 0
+    · unfold flushPreviousStream at hf; simp [hs, h0] at hf; exact absurd hf.2.symm hcode
+    · rw [flush_unsanitized s [] 1 hs h0] at h1
+      rw [flush_unsanitized s [] 0 hs h0] at hf
+      by_cases a1 : s.last_bytes_len * 8 ≥ 256
+      · simp [a1] at h1
+      rw [if_neg a1] at h1 hf
+      by_cases a2 : s.last_bytes_len * 8 < 1
+      · simp [a2] at h1
+      rw [if_neg a2] at h1 hf
+      cases hfl : findHighLoop (s.last_bytes.1 + (s.last_bytes.2 <<< 8)) (s.last_bytes_len * 8)
+          (s.last_bytes_len * 8) 0 (s.last_bytes_len * 8 - 1) with
+      | panic t => rw [hfl] at h1; simp at h1
+      | ok index =>
+        rw [hfl] at h1 hf
+        simp only [bind_ok] at h1 hf
+        by_cases a3 : index = 0
+        · simp [a3] at h1
+        rw [if_neg a3] at h1 hf
+        by_cases a4 : ((s.last_bytes.1 + (s.last_bytes.2 <<< 8)) >>> (index - 1)) ≠ 3
+        · simp [a4] at h1
+        rw [if_neg a4] at h1 hf
+        by_cases a5 : index - 1 ≥ 8
+        · rw [flushStrip_ge8_nocap _ _ _ a5] at hf
+          simp only [Outcome.ok.injEq, Prod.mk.injEq] at hf
+          exact hf.2.2.symm
+        · rw [flushStrip_lt8 _ _ _ _ _ (by omega), flushFin_lt8 _ _ _ (by omega)] at hf
+          simp only [Outcome.ok.injEq, Prod.mk.injEq] at hf
+          exact absurd hf.2.2.symm hcode
+
+theorem flush_any_cap (s s1 : State) (o1 : List Nat) (cap : Nat)
+    (h1 : flushPreviousStream s [] 1 = ok (s1, o1, SUCCESS)) :
+    flushPreviousStream s [] cap = ok (s1, o1, SUCCESS) ∨
+    (cap = 0 ∧ flushPreviousStream s [] cap = ok (s, [], NEEDS_MORE_OUTPUT)) := by
+  by_cases hc : 1 ≤ cap
+  · left; rw [flush_room_irrelevant_gen s cap 1 hc (Nat.le_refl _)]; exact h1
+  · have hc0 : cap = 0 := by omega
+    subst hc0
+    cases hf : flushPreviousStream s [] 0 with
+    | panic t =>
+      -- the only cap dependence is the room check, which cannot panic
+      exfalso
+      cases hs : s.last_byte_sanitized with
+      | true => rw [flush_sanitized s [] 0 hs] at hf; simp at hf
+      | false =>
+        by_cases h0 : s.last_bytes_len = 0
+        · unfold flushPreviousStream at hf; simp [hs, h0] at hf
+        · rw [flush_unsanitized s [] 1 hs h0] at h1
+          rw [flush_unsanitized s [] 0 hs h0] at hf
+          by_cases a1 : s.last_bytes_len * 8 ≥ 256
+          · simp [a1] at h1
+          rw [if_neg a1] at h1 hf
+          by_cases a2 : s.last_bytes_len * 8 < 1
+          · simp [a2] at h1
+          rw [if_neg a2] at h1 hf
+          cases hfl : findHighLoop (s.last_bytes.1 + (s.last_bytes.2 <<< 8)) (s.last_bytes_len * 8)
+              (s.last_bytes_len * 8) 0 (s.last_bytes_len * 8 - 1) with
+          | panic t => rw [hfl] at h1; simp at h1
+          | ok index =>
+            rw [hfl] at h1 hf
+            simp only [bind_ok] at h1 hf
+            by_cases a3 : index = 0
+            · simp [a3] at hf
+            rw [if_neg a3] at h1 hf
+            by_cases a4 : ((s.last_bytes.1 + (s.last_bytes.2 <<< 8)) >>> (index - 1)) ≠ 3
+            · simp [a4] at hf
+            rw [if_neg a4] at h1 hf
+            by_cases a5 : index - 1 ≥ 8
+            · rw [flushStrip_ge8_nocap _ _ _ a5] at hf; simp at hf
+            · rw [flushStrip_lt8 _ _ _ _ _ (by omega), flushFin_lt8 _ _ _ (by omega)] at hf; simp at hf
+    | ok r =>
+      obtain ⟨sX, oX, code⟩ := r
+      by_cases hcode : code = SUCCESS
+      · subst hcode
+        obtain ⟨rfl, _, _, hall⟩ := flush_stall s sX oX hf
+        left
+        rw [hall [] 1] at h1
+        simp only [Outcome.ok.injEq, Prod.mk.injEq] at h1
+        obtain ⟨rfl, rfl, _⟩ := h1
+        rfl
+      · right
+        obtain ⟨e1, e2⟩ := flush_sat_unchanged s sX oX code hf hcode
+        subst e1 e2
+        refine ⟨rfl, ?_⟩
+        rw [flush_nocap_code sX s1 o1 code h1 hf hcode]
+
+theorem Inv.with_pending {s : State} (h : Inv s) (d : NewStreamData) (_hsome : s.new_stream_pending.isSome = true)
+    (hr : d.num_bytes_read ≤ 5) (hw : d.num_bytes_written = none) :
+    Inv { s with new_stream_pending := some d } := by
+  refine ⟨h.len_le, h.off_lt, h.ws0, fun e => ⟨rfl, (h.san e).2⟩, h.tail, fun d' hd' => ?_⟩
+  simp only [Option.some.injEq] at hd'
+  subst hd'
+  exact ⟨hr, fun w hw' => by rw [hw] at hw'; simp at hw'⟩
+
+theorem take_drop_glue (x : List Nat) (k c : Nat) (hk : k ≤ c) :
+    (x.drop k).take (c - k) ++ x.drop c = x.drop k := by
+  have : x.drop c = (x.drop k).drop (c - k) := by rw [List.drop_drop]; congr 1; omega
+  rw [this, List.take_append_drop]
+
+/-- ONE call on a member in its header phase that is offered all the remaining input -/
+theorem member_call (s : State) (x : List Nat) (nsp0 : NewStreamData) (s1 : State) (o1 : List Nat)
+    (nspF : NewStreamData) (k : Nat) (s' : State) (n' : NewStreamData) (q : List Nat) (w : Nat)
+    (plan : HdrPlan s x nsp0 s1 o1 nspF k s' n' q w) (hI : Inv s) (cap : Nat) (r : Ret)
+    (h : stream s x cap = ok r) : CallOutcome s x s1 o1 nspF k s' n' q w r := by
+  have hp := plan.pending
+  rcases flush_any_cap s s1 o1 cap plan.strip with hf | ⟨hc0, hf⟩
+  · -- the strip happens (or happened) in this call
+    have hfl := flush_inv s [] cap hI (Nat.zero_le _) (by rw [hp]; rfl)
+    rw [hf, sat_ok] at hfl
+    obtain ⟨hfp, hI1⟩ := hfl
+    dsimp only at hI1
+    have hsan1 : s1.last_byte_sanitized = true := hfp.sanit rfl
+    have hp1 : s1.new_stream_pending = some nsp0 := by rw [← hp]; exact hfp.pending
+    have hole : o1.length ≤ cap := hfp.out_le
+    obtain ⟨hr50, _⟩ := hI.pend nsp0 hp
+    have hls := headerLoop_sat x nsp0 0 hr50
+    rw [plan.look, sat_ok] at hls
+    obtain ⟨hwF, hr5F, _, hkx, _, _⟩ := hls
+    dsimp only at hwF hr5F hkx
+    have hwF' : nspF.num_bytes_written = none := by rw [hwF]; exact plan.fresh
+    rw [stream_of_flush s s1 nsp0 x cap o1 hp hf] at h
+    -- the look-ahead step yields (nspF, k, s2)
+    have hstep : (if nsp0.num_bytes_written.isNone = true ∧ nsp0.num_bytes_read < NUM_STREAM_HEADER_BYTES then
+          (headerLoop nsp0 x 0).bind fun x => ok (x.1, x.2, { s1 with new_stream_pending := some x.1 })
+        else ok (nsp0, 0, s1)) = ok (nspF, k, { s1 with new_stream_pending := some nspF }) := by
+      by_cases hc : nsp0.num_bytes_written.isNone = true ∧ nsp0.num_bytes_read < NUM_STREAM_HEADER_BYTES
+      · rw [if_pos hc, plan.look]; rfl
+      · rw [if_neg hc]
+        have h5 : nsp0.num_bytes_read = 5 := by
+          rw [hdr5] at hc
+          have : nsp0.num_bytes_written.isNone = true := by rw [plan.fresh]; rfl
+          have : ¬ nsp0.num_bytes_read < 5 := fun e => hc ⟨this, e⟩
+          omega
+        have hs0 : nsp0.sufficient = true := (sufficient_iff nsp0).mpr (Or.inr h5)
+        have := plan.look
+        rw [headerLoop_sufficient nsp0 hs0 x 0] at this
+        simp only [Outcome.ok.injEq, Prod.mk.injEq] at this
+        obtain ⟨e1, e2⟩ := this
+        subst e1 e2
+        rw [state_eta_pending s1 nsp0 hp1]
+    rw [hstep] at h
+    simp only [bind_ok] at h
+    rw [if_neg (by rw [plan.suff]; simp)] at h
+    have hI2 : Inv { s1 with new_stream_pending := some nspF } :=
+      hI1.with_pending nspF (by rw [hp1]; rfl) hr5F hwF'
+    by_cases hfull : cap = o1.length
+    · rw [if_pos hfull] at h
+      simp only [Outcome.ok.injEq] at h
+      subst h
+      exact CallOutcome.waiting rfl rfl rfl rfl
+    rw [if_neg hfull] at h
+    have hlt : o1.length < cap := by omega
+    rw [shiftAndCheck_factor _ nspF o1 cap hwF' hlt, plan.head] at h
+    simp only [bind_ok, shiftFinish] at h
+    obtain ⟨⟨w', hw', hwle⟩, hr5', hq1, hsan', hws', _⟩ :=
+      shiftHead_inr _ nspF s' n' q hI2 hr5F plan.suff plan.head
+    have hww : w' = w := by rw [plan.written] at hw'; simp at hw'; exact hw'.symm
+    subst hww
+    cases hsc : shiftCopyOut s' n' (o1 ++ q) cap with
+    | panic t => rw [hsc] at h; simp at h
+    | ok y =>
+      rw [hsc] at h
+      simp only [bind_ok] at h
+      have hqne : q ≠ [] := fun e => by rw [e] at hq1; simp at hq1
+      have hg := shiftCopyOut_cons_gen s' n' w' o1 q cap y plan.written hwle hr5'
+        (by rw [List.length_append, hq1]; omega) (Or.inl hqne) (by rw [hsan']; exact hsan1) hsc
+      obtain ⟨P, hP1, hP2⟩ := hg.out
+      rcases hg.code with c0 | c2
+      · obtain ⟨d1, d2⟩ := hg.done c0
+        rw [if_neg (by rw [c0]; simp)] at h
+        by_cases hfull2 : y.2.1.length = cap
+        · rw [if_pos hfull2] at h
+          simp only [Outcome.ok.injEq] at h
+          subst h
+          refine CallOutcome.accepted hg.settled ?_ (Nat.le_refl _) (by simpa using hkx) (Or.inr rfl)
+            (fun _ => by dsimp only; rw [d2]; simp) (fun hne => absurd d1 hne) hg.ws
+          dsimp only
+          rw [hP1, Nat.sub_self, List.take_zero, List.append_nil, List.append_assoc, ← hP2, List.append_assoc]
+        · rw [if_neg hfull2] at h
+          obtain ⟨P2, t1, _, t4, t5, t6, t7, t8⟩ :=
+            streamTail_cons y.1 x k y.2.1 cap d1 (by omega) (by simpa using hkx) hg.len_le r h
+          have hpr : r.st.new_stream_pending = none := by rw [t7]; exact d1
+          refine CallOutcome.accepted (Or.inl hpr) ?_ (by omega) t4 t8 (fun _ => by rw [t6, d2])
+            (fun hne => absurd hpr hne) (by rw [t7]; exact hg.ws)
+          rw [t1, hP1, held_none r.st hpr]
+          have e5 : held y.1 = [y.1.last_bytes.1, y.1.last_bytes.2].take y.1.last_bytes_len := held_none y.1 d1
+          rw [List.append_assoc, List.append_assoc, ← t5, ← e5, ← List.append_assoc P, ← hP2]
+          simp [List.append_assoc]
+      · obtain ⟨e1, e2⟩ := hg.more c2
+        rw [if_pos (by rw [c2]; simp)] at h
+        simp only [Outcome.ok.injEq] at h
+        subst h
+        refine CallOutcome.accepted hg.settled ?_ (Nat.le_refl _) (by simpa using hkx) (Or.inr c2)
+          (fun e => absurd e e1) (fun _ => ⟨rfl, c2⟩) hg.ws
+        dsimp only
+        rw [hP1, Nat.sub_self, List.take_zero, List.append_nil, List.append_assoc, ← hP2, List.append_assoc]
+  · -- no room for the completed byte of the strip
+    subst hc0
+    unfold stream at h
+    rw [hp] at h
+    dsimp only at h
+    rw [hf] at h
+    simp only [bind_ok, ne_eq] at h
+    rw [if_pos (by simp)] at h
+    simp only [Outcome.ok.injEq] at h
+    exact CallOutcome.stalled h.symm
+
+/-- result of a complete protocol run over a buffer that completes the member's header -/
+structure MemberRun (acc : List Nat) (o1 q : List Nat) (n' : NewStreamData) (w : Nat) (x : List Nat) (k : Nat)
+    (s' : State) (R : Run) : Prop where
+  cons : R.emitted ++ held R.st = acc ++ planOwed o1 q n' w x k
+  code : R.code = NEEDS_MORE_INPUT
+  pending : R.st.new_stream_pending = none
+  len : R.st.last_bytes_len = min 2 (1 + (x.length - k))
+  inv : Inv R.st
+  ws : R.st.window_size = s'.window_size
+
+theorem feedBuffer_member : ∀ (fuel : Nat) (s : State) (x caps acc : List Nat) (R : Run)
+    (nsp0 : NewStreamData) (s1 : State) (o1 : List Nat) (nspF : NewStreamData) (k : Nat) (s' : State)
+    (n' : NewStreamData) (q : List Nat) (w : Nat),
+    HdrPlan s x nsp0 s1 o1 nspF k s' n' q w → Inv s → Started s →
+    feedBuffer fuel s x caps acc = some R → MemberRun acc o1 q n' w x k s' R := by
+  intro fuel
+  induction fuel with
+  | zero => intro s x caps acc R _ _ _ _ _ _ _ _ _ _ _ _ h; simp [feedBuffer] at h
+  | succ f ih =>
+    intro s x caps acc R nsp0 s1 o1 nspF k s' n' q w plan hI hS h
+    unfold feedBuffer at h
+    dsimp only at h
+    cases hst : stream s x (caps.headD (x.length + 8)) with
+    | panic t => rw [hst] at h; simp at h
+    | ok r =>
+      rw [hst] at h
+      dsimp only at h
+      have hpost := stream_sat s x (caps.headD (x.length + 8)) hI hS
+      rw [hst, sat_ok] at hpost
+      have hc := member_call s x nsp0 s1 o1 nspF k s' n' q w plan hI _ r hst
+      cases hc with
+      | stalled hr =>
+        subst hr
+        simp only [isTerminal, NEEDS_MORE_OUTPUT, NEEDS_MORE_INPUT, List.drop_zero, List.append_nil] at h
+        rw [if_neg (by simp), if_neg (by simp)] at h
+        exact ih s x caps.tail acc R nsp0 s1 o1 nspF k s' n' q w plan hI hS h
+      | waiting hst2 hcode hcons hprod =>
+        have hnt : isTerminal r.code = false := by rw [hcode]; decide
+        rw [hnt] at h
+        simp only [Bool.false_eq_true, if_false] at h
+        rw [if_neg (by rw [hcode]; simp)] at h
+        rw [hcons, hprod, hst2] at h
+        -- the new plan: strip and look-ahead are done
+        obtain ⟨hr50, _⟩ := hI.pend nsp0 plan.pending
+        have hls := headerLoop_sat x nsp0 0 hr50
+        rw [plan.look, sat_ok] at hls
+        have hwF : nspF.num_bytes_written = none := by rw [hls.1]; exact plan.fresh
+        have hI2 : Inv { s1 with new_stream_pending := some nspF } := by rw [← hst2]; exact hpost.inv
+        have hS2 : Started { s1 with new_stream_pending := some nspF } := by rw [← hst2]; exact hpost.started
+        have hfl := flush_inv s [] 1 hI (Nat.zero_le _) (by rw [plan.pending]; rfl)
+        rw [plan.strip, sat_ok] at hfl
+        have hsan1 : s1.last_byte_sanitized = true := hfl.1.sanit rfl
+        have plan2 : HdrPlan { s1 with new_stream_pending := some nspF } (x.drop k) nspF
+            { s1 with new_stream_pending := some nspF } [] nspF 0 s' n' q w :=
+          ⟨rfl, hwF, flush_sanitized _ [] 1 hsan1, headerLoop_sufficient nspF plan.suff _ 0, plan.suff,
+            plan.head, plan.written⟩
+        have hR := ih _ (x.drop k) caps.tail (acc ++ o1) R nspF _ [] nspF 0 s' n' q w plan2 hI2 hS2 h
+        refine ⟨?_, hR.code, hR.pending, ?_, hR.inv, hR.ws⟩
+        · rw [hR.cons]; unfold planOwed; simp [List.append_assoc]
+        · rw [hR.len]; simp
+      | accepted hset hcons hk hle hcode hlen hcopy hws =>
+        have hnt : isTerminal r.code = false := by
+          rcases hcode with e | e <;> rw [e] <;> decide
+        rw [hnt] at h
+        simp only [Bool.false_eq_true, if_false] at h
+        by_cases hdone : r.code = NEEDS_MORE_INPUT ∧ x.drop r.consumed = []
+        · rw [if_pos hdone] at h
+          simp only [Option.some.injEq] at h
+          subst h
+          have hall : r.consumed = x.length := by
+            have := List.drop_eq_nil_iff.mp hdone.2
+            omega
+          have hpn : r.st.new_stream_pending = none := by
+            cases hq : r.st.new_stream_pending with
+            | none => rfl
+            | some d =>
+              have := (hcopy (by rw [hq]; simp)).2
+              rw [hdone.1] at this; simp at this
+          refine ⟨?_, hdone.1, hpn, ?_, hpost.inv, hws⟩
+          · dsimp only
+            rw [List.append_assoc, hcons]
+            unfold planOwed
+            have := take_drop_glue x k r.consumed hk
+            rw [hdone.2, List.append_nil] at this
+            rw [this]
+          · have := hlen hpn; rw [hall] at this; exact this
+        · rw [if_neg hdone] at h
+          have hR := feedBuffer_cons f r.st (x.drop r.consumed) caps.tail (acc ++ r.produced) R hpost.inv
+            hpost.started hset h
+          refine ⟨?_, hR.code, hR.pending, ?_, hR.inv, by rw [hR.ws, hws]⟩
+          · rw [hR.cons]
+            unfold planOwed
+            calc acc ++ r.produced ++ held r.st ++ List.drop r.consumed x
+                = acc ++ (r.produced ++ held r.st) ++ List.drop r.consumed x := by simp [List.append_assoc]
+              _ = acc ++ (o1 ++ q ++ owedOf n' w ++ ((x.drop k).take (r.consumed - k) ++ x.drop r.consumed)) := by
+                rw [hcons]; simp [List.append_assoc]
+              _ = acc ++ (o1 ++ q ++ owedOf n' w ++ x.drop k) := by rw [take_drop_glue x k r.consumed hk]
+          · rw [hR.len]
+            have hdl : (List.drop r.consumed x).length = x.length - r.consumed := by simp
+            rw [hdl]
+            cases hq : r.st.new_stream_pending with
+            | none =>
+              have := hlen hq
+              unfold baseLen
+              rw [hq]
+              dsimp only
+              rw [this]
+              omega
+            | some d =>
+              obtain ⟨c0, _⟩ := hcopy (by rw [hq]; simp)
+              unfold baseLen
+              rw [hq]
+              dsimp only
+              rw [c0]
+
+/-! ### the other outcomes of a header phase -/
+
+theorem flushFin_code (s : State) (out : List Nat) (i : Nat) (r : State × List Nat × Nat)
+    (h : flushFin s out i = ok r) : r.2.2 = SUCCESS := by
+  unfold flushFin at h
+  dsimp only at h
+  split at h
+  · simp at h
+  · simp only [Outcome.ok.injEq] at h; subst h; rfl
+
+theorem flushStrip_code (s : State) (out : List Nat) (cap lb i : Nat) (r : State × List Nat × Nat)
+    (h : flushStrip s out cap lb i = ok r) : r.2.2 = SUCCESS ∨ r.2.2 = NEEDS_MORE_OUTPUT := by
+  unfold flushStrip at h
+  split at h
+  · simp only [Outcome.ok.injEq] at h; subst h; exact Or.inr rfl
+  split at h
+  · simp at h
+  dsimp only at h
+  split at h
+  · split at h
+    · cases hp : push Site.flushOutIndex out cap ((lb &&& ((1 <<< i) - 1)) % 256) with
+      | panic t => rw [hp] at h; simp at h
+      | ok o =>
+        rw [hp] at h
+        simp only [bind_ok] at h
+        split at h
+        · simp at h
+        · exact Or.inl (flushFin_code _ _ _ r h)
+    · simp only [Outcome.ok.injEq] at h; subst h; exact Or.inr rfl
+  · exact Or.inl (flushFin_code _ _ _ r h)
+
+/-- a strip that fails does so whatever room is offered -/
+theorem flush_fail_any_cap (s s1 : State) (o1 : List Nat) (cap : Nat)
+    (h1 : flushPreviousStream s [] 1 = ok (s1, o1, NOT_CRAFTED_FOR_APPEND)) :
+    flushPreviousStream s [] cap = ok (s, [], NOT_CRAFTED_FOR_APPEND) := by
+  cases hs : s.last_byte_sanitized with
+  | true => rw [flush_sanitized s [] 1 hs] at h1; simp at h1
+  | false =>
+    by_cases h0 : s.last_bytes_len = 0
+    · unfold flushPreviousStream at h1; simp [hs, h0] at h1
+    · rw [flush_unsanitized s [] 1 hs h0] at h1
+      rw [flush_unsanitized s [] cap hs h0]
+      by_cases a1 : s.last_bytes_len * 8 ≥ 256
+      · simp [a1] at h1
+      rw [if_neg a1] at h1 ⊢
+      by_cases a2 : s.last_bytes_len * 8 < 1
+      · simp [a2] at h1
+      rw [if_neg a2] at h1 ⊢
+      cases hfl : findHighLoop (s.last_bytes.1 + (s.last_bytes.2 <<< 8)) (s.last_bytes_len * 8)
+          (s.last_bytes_len * 8) 0 (s.last_bytes_len * 8 - 1) with
+      | panic t => rw [hfl] at h1; simp at h1
+      | ok index =>
+        rw [hfl] at h1
+        simp only [bind_ok] at h1 ⊢
+        by_cases a3 : index = 0
+        · rw [if_pos a3]
+        rw [if_neg a3] at h1 ⊢
+        by_cases a4 : ((s.last_bytes.1 + (s.last_bytes.2 <<< 8)) >>> (index - 1)) ≠ 3
+        · rw [if_pos a4]
+        rw [if_neg a4] at h1
+        exfalso
+        have := flushStrip_code _ _ _ _ _ _ h1
+        simp at this
 
 end BV.Concat
